@@ -7,10 +7,15 @@
    orders and all sizes; the state is the byte array.  fb_ok c data: 0 <= WIDTH, HEIGHT <= i32::MAX (the
    `as u32` / `as i32` casts of as_image / pixel are exact), data consists of bytes, N >= BUFFER_SIZE
    (the compile-time CHECK_N) and 8 * N <= usize::MAX.  Colours are their raw values (raw_ok: < 2^bits).
-   fb_pixel returns Panic | Pix (option colour): the theorems show it is never Panic. *)
+   fb_pixel returns Panic | Pix (option colour): the theorems show it is never Panic.
+   usize is a parameter (class Usize of Model/Rawdata.v): the section holds for 16-, 32- and 64-bit targets alike;
+   only the bridge to the C09 image model at the end is for the 64-bit instance that model is written for. *)
 From EG Require Import Base.Prelude Model.Rawdata Proofs.Rawdata Model.Framebuffer Proofs.Framebuffer.
 From EG Require Model.Geometry Proofs.Geometry Model.Target Proofs.Target Proofs.Fbtarget Gen.FbShape.
 From EG Require Model.Imageraw Proofs.Imageraw Proofs.Imagebridge.
+
+Section AnyUsize.
+Context {U : Usize}.
 
 (* a new framebuffer reads the all-zero colour inside, None outside *)
 Theorem C10_fb_init : forall c n q,
@@ -155,6 +160,11 @@ Theorem C10_fb_as_image_draw : forall c data,
       fb_pixel c data (x, y) = Pix (nth_error cols (Z.to_nat (y * fb_w c + x))).
 Proof. exact fb_as_image_draw. Qed.
 
+End AnyUsize.
+
+Section Bridge64.
+Local Existing Instance usize64.
+
 (* ---- bridge to the ImageRaw model of property C09 (Model/Imageraw.v) --------------------------------------------
    Framebuffer.v's ImageRaw::pixel is Imageraw.v's raw_pixel on the same data ... *)
 Theorem C10_image_pixel_eq : forall im p,
@@ -176,6 +186,10 @@ Theorem C10_fb_as_image_render : forall c data o,
       then Fbtarget.fb_abs c data (Geometry.psub q o) else None.
 Proof. exact Imagebridge.fb_as_image_render. Qed.
 
+End Bridge64.
+
+Section Witness.
+Local Existing Instance usize64.
 (* non-vacuity: a 9x2 1-bpp framebuffer (rows padded to 2 bytes) in both data orders, oversized by one byte *)
 Example C10_witness :
   let c0 := FbCfg U1 false 9 2 in let c1 := FbCfg U1 true 9 2 in
@@ -192,3 +206,4 @@ Proof.
   split; [apply fb_new_ok; vm_compute; repeat split; congruence|].
   repeat split; vm_compute; reflexivity.
 Qed.
+End Witness.
